@@ -1,0 +1,23 @@
+//go:build verif
+// +build verif
+
+package state
+
+import (
+	pb "github.com/xuperchain/xupercore/bcs/ledger/xledger/xldgpb"
+)
+
+// VerifRWSetPermission exposes verifyRWSetPermission to the verification harness.
+func (t *State) VerifRWSetPermission(tx *pb.Transaction, verifiedID map[string]bool) (bool, error) {
+	return t.verifyRWSetPermission(tx, verifiedID)
+}
+
+// VerifApplyExt writes the extended outputs of tx into the xmodel tables without any
+// verification; the verification harness uses it to prepare confirmed contract data.
+func (t *State) VerifApplyExt(tx *pb.Transaction) error {
+	batch := t.ldb.NewBatch()
+	if err := t.xmodel.DoTx(tx, batch); err != nil {
+		return err
+	}
+	return batch.Write()
+}
